@@ -5,7 +5,7 @@
    per-session lists of known control / filter / credential types are modelled (Sess/Registry.v) and compared
    with the implementation on every generated history; the theorems below are about that model. *)
 From Coq Require Import ZArith NArith List Bool.
-From SV Require Import Base.Py Gen.Generated Msg.Types Sess.Model Sess.Isolation Sess.Registry Sess.RegistryProofs.
+From SV Require Import Base.Py Gen.Generated Gen.Sharing Msg.Types Sess.Model Sess.Isolation Sess.Registry Sess.RegistryProofs Sess.Sharing.
 Import ListNotations.
 
 Theorem C19_model_sessions_do_not_interact :
@@ -39,6 +39,34 @@ Theorem C19_unregistered_type_stays_unknown :
   forall ops k i r, reg_decodes k i r = None -> (forall c, ~ In (k, i, c) ops) -> reg_decodes k i (snd (reg_run ops r)) = None.
 Proof. exact reg_unknown_stays_unknown. Qed.
 
+(* The object graph.  Whether two sessions can see each other's registrations is decided where the lists are
+   created.  Sess/Sharing.v puts the lists in a store, sessions hold locations; [new_sessions fresh] creates sessions
+   the way the source does according to tools/audit.py (Gen/Sharing.v, regenerated on every run): every `choices`
+   field is a default_factory building a new list, LDAPSession.__init__ constructs its own options objects,
+   register_* appends to self._packing_options.<..>.choices and writes nothing else. *)
+Theorem C19_audit_registries_built_per_session : choice_lists_fresh = true.
+Proof. exact eq_refl. Qed.
+
+(* Then, for any number of sessions created one after the other and ANY interleaving of registrations and look-ups,
+   every session observes exactly what it observes alone on a fresh session ... *)
+Theorem C19_sessions_isolated_in_the_object_graph :
+  forall n sched st ls who,
+  new_sessions choice_lists_fresh n [] = (st, ls) -> who < n ->
+  mine who (run_store ls sched st) = run_alone (mine who sched) reg_init.
+Proof. exact current_sessions_are_isolated. Qed.
+
+(* ... which is a fact about the creation of the lists, not a tautology of the model: with one shared list a
+   look-up by session 1 sees the registration of session 0. *)
+Theorem C19_a_shared_list_would_interfere :
+  exists sched st ls, new_sessions false 2 [] = (st, ls) /\ mine 1 (run_store ls sched st) <> run_alone (mine 1 sched) reg_init.
+Proof. exact shared_list_is_not_isolated. Qed.
+
+(* Nothing else in the package keeps state between calls or shares it between objects (same audit). *)
+Theorem C19_audit_no_state_outside_the_sessions :
+  (hidden_state_asn1 ++ hidden_state_authentication ++ hidden_state_controls ++ hidden_state_filter ++
+   hidden_state_messages ++ hidden_state_session ++ hidden_state_schema = [])%list.
+Proof. exact eq_refl. Qed.
+
 (* non-vacuity: built-in ids are taken in a fresh session, a new id can be registered *)
 Example C19_example :
   reg_add RControl (bytes_id oid_paged) [67%N] reg_init = Raise ValueErr /\ reg_add RFilter [7%N] [70%N] reg_init = Raise ValueErr /\
@@ -50,3 +78,7 @@ Print Assumptions C19_registration_takes_effect.
 Print Assumptions C19_duplicate_registration_is_rejected.
 Print Assumptions C19_first_registration_wins.
 Print Assumptions C19_unregistered_type_stays_unknown.
+Print Assumptions C19_audit_registries_built_per_session.
+Print Assumptions C19_sessions_isolated_in_the_object_graph.
+Print Assumptions C19_a_shared_list_would_interfere.
+Print Assumptions C19_audit_no_state_outside_the_sessions.
